@@ -283,8 +283,24 @@ impl<RK: StackKind, const P: u8, const G: i8> aradio::PhyRxTx for StackRadio<RK,
         let (pos, hit) = self.env.borrow_mut().a_tx_begin(&config, buf);
         self.begin("tx", hit, pos);
         let phy = self.phy.clone();
-        let r = drive_inner(&phy, self.inner.tx(config, buf), |p| match p {
+        let env = self.env.clone();
+        let mut asked = false;
+        let Self { inner, seen_tx, seen_rx, .. } = self;
+        let r = drive_inner(&phy, inner.tx(config, buf), |p| match p {
             Pend::Irq => {
+                // the frame is on the air and the real driver waits for TxDone: the application may give up here
+                // (the real tx() future is dropped in mid-wait; the chip goes on transmitting)
+                if !asked {
+                    asked = true;
+                    if env.borrow_mut().cancel_check("fault.cancel-in-tx") {
+                        env.borrow_mut().bump("stack.cancel-in-real-tx-wait");
+                        env.borrow_mut().a_tx_end(&config, buf, pos, true, 0);
+                        sync_logs(&phy, &env, seen_tx, seen_rx, Some((&config, buf)));
+                        return PendAction::Yield;
+                    }
+                } else if env.borrow().cancel_hit {
+                    return PendAction::Yield;
+                }
                 if apply(&phy, ChipOutcome::Done, &[]) {
                     PendAction::Again
                 } else {
@@ -334,6 +350,9 @@ impl<RK: StackKind, const P: u8, const G: i8> aradio::PhyRxTx for StackRadio<RK,
             e.a_setup_rx_end(&config, pos, ok);
         }
         self.after(None);
+        if self.env.borrow_mut().cancel_check("fault.cancel-in-setup_rx") {
+            crate::world::PendForever.await;
+        }
         res
     }
 
@@ -342,11 +361,25 @@ impl<RK: StackKind, const P: u8, const G: i8> aradio::PhyRxTx for StackRadio<RK,
         self.begin("rx_single", hit, pos);
         // what the ether does in this window (decided, and judged by the reference, before the real call)
         let mut tmp = [0u8; 256];
-        let frame: Option<usize> = if hit { None } else { self.env.borrow_mut().a_rx_single_decide(win, &mut tmp[..buf.len().min(255)]) };
+        // the application may abandon the operation while the real driver waits in this window (before anything is heard)
+        let cancel = !hit && self.env.borrow_mut().cancel_check("fault.cancel-in-rx_single");
+        let frame: Option<usize> = if hit || cancel { None } else { self.env.borrow_mut().a_rx_single_decide(win, &mut tmp[..buf.len().min(255)]) };
         let phy = self.phy.clone();
+        let env = self.env.clone();
         let mut delivered = false;
-        let r = drive_inner(&phy, self.inner.rx_single(buf), |p| match p {
+        let mut cancel_logged = false;
+        let Self { inner, seen_tx, seen_rx, .. } = self;
+        let r = drive_inner(&phy, inner.rx_single(buf), |p| match p {
             Pend::Irq => {
+                if cancel {
+                    if !cancel_logged {
+                        cancel_logged = true;
+                        env.borrow_mut().bump("stack.cancel-in-real-rx-wait");
+                        env.borrow_mut().a_rx_single_end(pos, "Abandoned".into());
+                        sync_logs(&phy, &env, seen_tx, seen_rx, None);
+                    }
+                    return PendAction::Yield;
+                }
                 if delivered {
                     // the chip already reported its event and the driver waits again: the window is over
                     return if apply(&phy, ChipOutcome::Timeout, &[]) { PendAction::Again } else { PendAction::Abort };
@@ -487,6 +520,9 @@ impl<RK: StackKind, const P: u8, const G: i8> aradio::PhyRxTx for StackRadio<RK,
             e.a_low_power_end(pos, ok);
         }
         self.after(None);
+        if self.env.borrow_mut().cancel_check("fault.cancel-in-low_power") {
+            crate::world::PendForever.await;
+        }
         res
     }
 }
